@@ -92,6 +92,9 @@ type Msg struct {
 	// PGP: the message carries a PGP type (1 = PGPEncrypt, 2 = PGPSignature): go-mail wraps the caller's parts in a
 	// multipart/encrypted or multipart/signed
 	PGP int `json:"pgp,omitempty"`
+	// ReBody: history — the message already had a body (a decoy text part and a decoy alternative) when the body of this
+	// program is set: SetBody* replaces what was there
+	ReBody bool `json:"rebody,omitempty"`
 }
 
 // MWFooter is the text middleware 2 appends; MWFile is the attachment middleware 3 adds.
@@ -288,6 +291,10 @@ func Build(s Msg, h *Hooks) (*mail.Msg, error) {
 		return def
 	}
 	var later []func()
+	if s.ReBody && len(s.Parts) > 0 {
+		m.SetBodyString(mail.TypeTextPlain, "DRAFT: decoy body that is replaced by the real one\r\n")
+		m.AddAlternativeString(mail.TypeTextHTML, "<p>decoy alternative that is replaced as well</p>\r\n")
+	}
 	for i, p := range s.Parts {
 		var po []mail.PartOption
 		if p.Enc != "" {
@@ -582,6 +589,9 @@ func (s Msg) Describe() string {
 	}
 	if s.MW != 0 {
 		fmt.Fprintf(&b, " middleware=%d", s.MW)
+	}
+	if s.ReBody {
+		b.WriteString(" body-set-on-a-message-that-had-one")
 	}
 	if s.PGP != 0 {
 		fmt.Fprintf(&b, " pgp-type=%d", s.PGP)
